@@ -65,6 +65,7 @@ type Unit struct {
 	exec     *Exec
 	contract *Contract
 	nameCount map[string]int
+	envAssumes []string
 }
 
 func newUnit(eng *Engine, name string) *Unit {
